@@ -127,16 +127,20 @@ func (c *gctx) key() string {
 }
 
 type scope struct {
-	local uint8 // names bound locally
-	lmac  bool  // a macrolet macro `lm` is in scope
+	local  uint8 // names bound locally
+	lmac   bool  // a macrolet macro `lm` is in scope
+	lmFree int8  // 1 + the name its template mentions free (0 = none)
+	lmDead bool  // that name was rebound since the macrolet: calling lm here would capture (not statically scoped)
 }
 
 type memoKey struct {
-	ctx   int
-	nt    uint8
-	w     int8
-	local uint8
-	lmac  bool
+	ctx    int
+	nt     uint8
+	w      int8
+	local  uint8
+	lmac   bool
+	lmFree int8
+	lmDead bool
 }
 
 type gen struct {
@@ -194,7 +198,7 @@ func (g *gen) list(ctx int, nt uint8, w int, sc scope) []*term {
 	if w <= 0 {
 		return nil
 	}
-	k := memoKey{ctx, nt, int8(w), sc.local, sc.lmac}
+	k := memoKey{ctx, nt, int8(w), sc.local, sc.lmac, sc.lmFree, sc.lmDead}
 	if l, ok := g.memo[k]; ok {
 		return l
 	}
@@ -249,7 +253,7 @@ func (g *gen) genExpr(ctx int, w int, sc scope) []*term {
 	nn := len(g.cfg.Names)
 	bound := sc.local | c.globals
 	var out []*term
-	with := func(sc scope, n int) scope { sc.local |= 1 << uint(n); return sc }
+	with := func(sc scope, n int) scope { return sc.bind(n) }
 	if w == 1 {
 		for n := 0; n < nn; n++ {
 			if bound&(1<<uint(n)) != 0 {
@@ -305,7 +309,7 @@ func (g *gen) genExpr(ctx int, w int, sc scope) []*term {
 			out = append(out, &term{k: kMCall, n: int8(i), kids: []*term{a}})
 		}
 	}
-	if sc.lmac {
+	if sc.lmac && !sc.lmDead {
 		for _, a := range args {
 			out = append(out, &term{k: kLMCall, kids: []*term{a}})
 		}
@@ -378,18 +382,14 @@ func (g *gen) genExpr(ctx int, w int, sc scope) []*term {
 	if g.cfg.Macrolet {
 		// (macrolet ([lm (p) (quasiquote T)]) E): template 0, 3 (no free name) or 1, 2 over a LOCALLY bound name
 		for p := 0; p < nn; p++ {
-			inner := sc
-			inner.lmac = true
-			bodies := g.list(ctx, ntExpr, w-2, inner)
-			if len(bodies) == 0 {
-				continue
-			}
+			closed := sc
+			closed.lmac, closed.lmFree, closed.lmDead = true, 0, false
 			for t := int8(0); t < nTemplates; t++ {
 				if !templateHasFree(t) {
 					if p != 0 {
 						continue // the parameter name is irrelevant for a closed template: keep one
 					}
-					for _, body := range bodies {
+					for _, body := range g.list(ctx, ntExpr, w-2, closed) {
 						out = append(out, &term{k: kMacrolet, n: t, p: int8(p), q: -1, kids: []*term{body}})
 					}
 					continue
@@ -398,7 +398,9 @@ func (g *gen) genExpr(ctx int, w int, sc scope) []*term {
 					if bound&(1<<uint(f)) == 0 {
 						continue
 					}
-					for _, body := range bodies {
+					inner := closed
+					inner.lmFree = int8(f + 1)
+					for _, body := range g.list(ctx, ntExpr, w-2, inner) {
 						out = append(out, &term{k: kMacrolet, n: t, p: int8(p), q: int8(f), kids: []*term{body}})
 					}
 				}
@@ -417,6 +419,15 @@ func (g *gen) genExpr(ctx int, w int, sc scope) []*term {
 		}
 	}
 	return out
+}
+
+// bind enters a binder of name n.
+func (sc scope) bind(n int) scope {
+	sc.local |= 1 << uint(n)
+	if sc.lmac && sc.lmFree == int8(n+1) {
+		sc.lmDead = true
+	}
+	return sc
 }
 
 func (g *gen) genStmt(ctx int, w int, sc scope) []*term {
@@ -452,8 +463,7 @@ func (g *gen) genStmt(ctx int, w int, sc scope) []*term {
 	}
 	if g.cfg.Dotimes {
 		for n := 0; n < nn; n++ {
-			inner := sc
-			inner.local |= 1 << uint(n)
+			inner := sc.bind(n)
 			for _, s := range g.list(ctx, ntStmt, w-1, inner) {
 				out = append(out, &term{k: kDotimes, n: int8(n), kids: []*term{s}})
 			}
